@@ -98,4 +98,30 @@ CHECKS.update({
     ),
 })
 
+CHECKS.update({
+    'C06': dict(
+        level='exploration',
+        technique='generated block trees with raise points vs. snapshot/rollback of the reference model + rows-vs-files audit; scheduled isolation check with the block as one atomic call',
+        text='Block trees (nested blocks, raise points of three exception kinds, handled inner exceptions) over Cache, FanoutCache, Index and Deque transactions are executed against the model: '
+             'an outermost raise must restore keys, values read through the API, expiry, tags, len and leave rows and files consistent; concurrent clients (own object or the same object from another '
+             'thread) under generated schedules must linearize with the whole block as a single call.',
+        note=SCHED_NOTE, ref='3/C06',
+    ),
+    'C13': dict(
+        level='exploration',
+        technique='model-based histories through FanoutCache; differential routing vs. the vendored pinned release, fresh interpreters with other hash seeds, and a committed golden file',
+        text='C03-style histories over 1/2/3/8/13 shards are compared with the single-cache model incl. aggregates and per-shard iteration order; key batches are routed here, in three fresh '
+             'interpreters, by the pinned copy and physically (which shard directory received the row); equal-identity key pairs must share a shard.',
+        note='Routing reference = golden/pinned_diskcache (copy of the pinned commit) and golden/routing.json. Known finding: numeric twins route differently (recorded, excluded by construction).',
+        ref='3/C13',
+    ),
+    'C20': dict(
+        level='exploration',
+        technique='scheduled Averager clients with linearizability checking; throttle under a discrete-event virtual clock with a sliding-window rate oracle',
+        text='Averager add/get/pop programs of 2-3 clients under statement-level schedules must linearize against (total, count). Throttled callers with generated arrival gaps run on a '
+             'discrete-event clock through time_func/sleep_func; every window of starts must satisfy n <= count + rate*dt and every call must start within a bounded number of wake-ups.',
+        note=SCHED_NOTE + ' Throttle callers switch at sleep and call boundaries only.', ref='3/C20',
+    ),
+})
+
 NOT_APPLICABLE = {p: PENDING for p in ['C%02d' % i for i in range(1, 21)] if p not in CHECKS}
